@@ -20,6 +20,7 @@ LEVEL_NOTE = ("Not decided: that the AST equals the written program for all layo
 LEVEL_TEXT += (" Also: (E7.a) the query text handed to tree-sitter is the untransformed source slice of the stanza's query followed by the internal full-match capture; (E7.n) numerals are the maximal run of ASCII digits at the position; (E7.x) skip_query's escape flag makes exactly the next character of a query string inert; (E7.q) parse_sequence compares the next character with the end marker before every element (empty and trailing-comma forms).")
 LEVEL_TEXT += (" (E7.f) a declaration keyword followed — after optional whitespace — by ':' is a field name of the next stanza's query, not a declaration.")
 LEVEL_TEXT += (" (E7.o) a token that may be absent is tested only after whitespace was skipped on every path since the last consumption (WS/TOK typestate over the parser's call graph).")
+LEVEL_TEXT += (" (E7.p) every call of a parse_* function or mandatory token is made in the whitespace-skipped state, except four adjacent pairs of the grammar; (E7.c) consume_token decides on starts_with(token) alone.")
 LEVEL_TEXT += (' (E7.eof) no top-level item — nor the file loop — has a successful path whose last look at the input is an end-of-input-fatal `peek()?`.')
 
 POS_FIELDS = ("offset", "location", "chars")
@@ -597,6 +598,24 @@ def run(prog, rep):
     from ..engines import e7_layout
     no = e7_layout.optional_tokens_after_whitespace(prog, rep)
     rep.floor("E7.o", no, 8, "optional-token tests")
+    np_ = e7_layout.syntactic_calls_after_whitespace(prog, rep)
+    rep.floor("E7.p", np_, 100, "calls of parse_* functions and mandatory tokens")
+    # ---- E7.c: a token is there iff the rest of the text starts with it
+    rep.rule("E7.c", "consume_token(token) decides on `rest.starts_with(token)` alone (tokens are not words: `->` may be followed by anything)")
+    ct = [f for f in pf if f.name == "consume_token" and f.kind != "closure"]
+    if len(ct) != 1:
+        rep.violation("E7.c", "anchor-lost:consume_token", "", "not found")
+    else:
+        f = ct[0]
+        tr = Tracer(f.body)
+        conds = []
+        for b in sorted(f.body.reachable()):
+            es = switch_edges(f.body, tr, b)
+            if es and not canon(es[0].cond).startswith("Try::branch("):
+                conds.append(canon_full(es[0].cond))
+        want = "str::starts_with(&*Index::index(&**arg:self.source, ops::RangeFrom::RangeFrom{*arg:self.offset}), arg:token)"
+        rep.check(conds == [want], "E7.c", "consume_token :: decision", f.loc(), "the only test is source[offset..].starts_with(token)",
+                  "consume_token also decides on %s: a token can be refused although the text continues with it" % [c[:120] for c in conds if c != want][:2])
 
 
 def const_str_of(e):
